@@ -256,6 +256,7 @@ structure ConnState where
   c : S3db.Txn.Conn := {}
   clock : Int := 0          -- number of clock readings so far
   last : Option Int := none  -- stamp of the previous statement
+  wrote : Bool := false      -- the open transaction holds uncommitted rows
 
 open S3db.Txn in
 def parseAssign (s : String) : Option Assign :=
@@ -271,7 +272,10 @@ def connStep (st : ConnState) (args : List String) : ConnState × String :=
   match args with
   | ["reset"] => ({}, "ok")
   | ["begin"] => ({ st with c := st.c.begin F fresh, clock := st.clock + 1 }, "ok")
-  | ["end"] => ({ st with c := st.c.endTx F }, "ok")
+  | ["end"] => ({ st with c := st.c.endTx F, wrote := false }, "ok")
+  | ["refresh"] =>
+    -- `RefreshFunc.Final`: refused under a write time fixed at BEGIN, and over uncommitted rows
+    (st, if st.c.refreshAllowed F && !(F.refreshRefusesDirty && st.wrote) then "ok" else "err")
   | ["set", d, w] =>
     match parseAssign d, parseAssign w with
     | some d, some w =>
@@ -285,7 +289,7 @@ def connStep (st : ConnState) (args : List String) : ConnState × String :=
   | ["stmt"] =>
     let t := st.c.stmtTime F fresh
     let out := if t < 0 then s!"clock same={if st.last == some t then 1 else 0}" else s!"t={t}"
-    ({ st with clock := st.clock + 1, last := some t }, out)
+    ({ st with clock := st.clock + 1, last := some t, wrote := true }, out)
   | _ => (st, "bad-op")
 
 /-! ## table definitions -/
